@@ -175,6 +175,28 @@ void runCase(long long i, Prng& r, const Args& a) {
       X.rminus(Y, Ja, Jb);
       Mx Jc(DOF, DOF); for (int r2 = 0; r2 < DOF; ++r2) for (int k = 0; k < DOF; ++k) Jc(r2, k) = rcj[r2].v[k];
       rec("functor/constraint-derivative", relF(Jc, Mx(-Ja)), TOL);
+      // with a measurement covariance C the residual is whitened: |r|^2 = w^T C^-1 w (Mahalanobis), whatever square root is used;
+      // constructor form and setter form must agree, getters return what was set
+      {
+        typedef Eigen::Matrix<double, DOF, DOF> Cov;
+        Cov A; for (int r2 = 0; r2 < DOF; ++r2) for (int k = 0; k < DOF; ++k) A(r2, k) = r.uni(-1, 1);
+        Cov C0 = A * A.transpose() + Cov::Identity() * 0.5; C0 = ((C0 + C0.transpose()) * 0.5).eval();   // exactly symmetric: the setter keeps the upper triangle only
+        const Cov C = C0;   // const: a non-const lvalue would select the forwarding constructor
+        manif::CeresConstraintFunctor<MonG> c1(t, C), c2(t); c2.setMeasurementCovariance(C);
+        double r1[DOF], r2v[DOF]; c1(ys, xs, r1); c2(ys, xs, r2v);
+        Eigen::Matrix<double, DOF, 1> w; for (int k = 0; k < DOF; ++k) w(k) = wr.coeffs()(k);
+        Eigen::Matrix<long double, DOF, DOF> Cl = C.template cast<long double>(); Eigen::Matrix<long double, DOF, 1> wl = w.template cast<long double>();
+        long double maha = wl.dot(Cl.fullPivLu().solve(wl)), got = 0, got2 = 0, dif = 0;
+        for (int k = 0; k < DOF; ++k) { got += (long double)r1[k] * r1[k]; got2 += (long double)r2v[k] * r2v[k]; dif = std::max(dif, (long double)std::fabs(r1[k] - r2v[k])); }
+        double condC = C.norm() * C.inverse().norm();
+        rec("functor/constraint-covariance-mahalanobis", (double)(std::fabs(got - maha) / std::max((long double)1, maha)), 64 * Sc<double>::u() * condC + PT);
+        rec("functor/constraint-covariance-ctor-vs-setter", (double)dif, 0);
+        bool gets = c2.getMeasurementCovariance() == C && c2.getMeasurement().coeffs() == t.coeffs();
+        c2.setMeasurement(-t); gets = gets && c2.getMeasurement().coeffs() == (-t).coeffs();
+        rec("functor/constraint-getters", gets ? 0 : 1, 0);
+        obj.setTargetState(X); bool og = obj.getTargetState().coeffs() == X.coeffs();
+        rec("functor/objective-getters", og ? 0 : 1, 0);
+      }
     }
   }
   if (i < 2) LOG.sample(J().s("monitor", LOG.monitor).u("seed", a.seed).i("idx", i).s("cellX", lx).s("cellT", lt).raw("inputs", base.str()).str());
